@@ -35,13 +35,6 @@ def rate_value(spec, args):
     return v
 
 
-def rate_log_sensitivity(spec, args):
-    """|d ln(rate) / d ln(x_i)| for each argument (used by the oracle to propagate the E_int tolerance)."""
-    if spec["mode"] != "power":
-        return [0.0 for _ in args]
-    return [abs(a) * x / (x + x0) if math.isfinite(x) else abs(a) for x, x0, a in zip(args, spec["x0"], spec["a"])]
-
-
 _CLASSES = {}
 
 
